@@ -337,9 +337,13 @@ class Interp:
         if rust_call and len(args) == 1 and isinstance(args[0], Agg) and args[0].kind == "tuple":
             args = list(args[0].fields)
         hops = 0
-        while isinstance(fv, Ref) and hops < 4:      # `&mut closure` / `&fn item`
-            fr = getattr(fv, "frame", None)
-            fv = self.read_ref(getattr(self, "cur_env", None) or {}, fv)
+        self_ref = None
+        while isinstance(fv, (Ref, HRef)) and hops < 4:      # `&mut closure` / `&fn item`
+            self_ref = fv
+            if isinstance(fv, Ref):
+                fv = self.read_ref(getattr(self, "cur_env", None) or {}, fv)
+            else:
+                fv = href_get(self, getattr(self, "cur_env", None) or {}, fv)
             hops += 1
         if isinstance(fv, Sym) and self.oracle is not None:
             # an opaque function value (a fn-pointer field modelled as a symbol): the rule's oracle answers the call
@@ -356,7 +360,8 @@ class Interp:
             ts = getattr(fv, "tsubst", None)
             if ts:
                 self._call_gargs = dict(ts)      # a closure body names its creator's type parameters
-            return self.call_body(fn, [fv] + list(args))
+            # called through `&mut closure`: the body's `self` is that reference, so state captured BY VALUE persists between calls
+            return self.call_body(fn, [self_ref if self_ref is not None and fv.fields else fv] + list(args))
         if isinstance(fv, tuple) and fv and fv[0] == "fn":
             key = fv[1].get("resolved", {}).get("key") or fv[1].get("key")
             fn = self.facts.fn_opt(key)
@@ -524,6 +529,9 @@ class Interp:
                 v = v.fields[idx] if isinstance(idx, int) and not isinstance(idx, bool) and 0 <= idx < len(v.fields) else TOP
                 if was_slice and isinstance(v, HRef):
                     v = self._project(env, v, ["*"])
+            elif e[0] == "sub" and isinstance(v, Agg) and v.kind in ("array", "slice"):
+                hi_ = (len(v.fields) - e[2]) if e[3] else e[2]
+                v = Agg("slice", None, None, v.fields[e[1]:hi_])
             elif e[0] in ("i", "ci", "sub"):
                 if isinstance(v, Sym) and "[]" in v.fields:
                     v = v.fields["[]"]
@@ -1377,7 +1385,7 @@ STATE = "mahf::state::State::"
 # convenience accessors of State and the registry accessor + state type they stand for
 STATE_SUGAR = {
     "populations": ("borrow", "mahf::state::common::Populations<P>"), "populations_mut": ("borrow_mut", "mahf::state::common::Populations<P>"),
-    "random_mut": ("borrow_mut", "mahf::state::random::Random"), "random": ("borrow", "mahf::state::random::Random"),
+    "random_mut": ("borrow_mut", "mahf::state::random::Random"),
     "log": ("borrow", "mahf::logging::log::Log"), "iterations": ("get_value", "mahf::state::common::Iterations"),
     "evaluations": ("get_value", "mahf::state::common::Evaluations"), "pareto_front": ("borrow", "mahf::state::common::ParetoFront<P>"),
 }
